@@ -109,6 +109,21 @@ def accuracy_case(c):
         decoys = [np.ascontiguousarray(np.roll(t[::-1, :, ::-1], j + 1, axis=1)) for j in range(nt - 1)]
         tl = decoys[:which] + [t] + decoys[which:]
         model = M(tl, rotations=((20, 20), (0, 0), (20, 20)), **kw)
+    elif c.get("rotmask") and c["rotmask"].get("particle"):
+        # a particle made of separate blobs and a soft mask around one off-centre cluster of them: masking the sub-volume with the mask of
+        # another searched rotation would hide exactly the density the template is compared on
+        zz, yy, xx = np.indices(t.shape)
+        ctr = (np.array(t.shape) - 1) / 2
+        focus = np.array(c["rotmask"]["offset"], dtype=float)
+        vol = np.zeros(t.shape)
+        for b_ in range(9):
+            p_ = (focus + rng.normal(size=3) * 1.4) if b_ < 4 else -focus + rng.normal(size=3) * 3.0
+            vol += float(rng.uniform(0.7, 1.6)) * np.exp(-((zz - ctr[0] - p_[0]) ** 2 + (yy - ctr[1] - p_[1]) ** 2 + (xx - ctr[2] - p_[2]) ** 2) / (2 * 1.3 ** 2))
+        t = vol.astype(np.float32)
+        img = displaced(t, d)
+        dist = np.sqrt((zz - ctr[0] - focus[0]) ** 2 + (yy - ctr[1] - focus[1]) ** 2 + (xx - ctr[2] - focus[2]) ** 2)
+        mask = (1.0 / (1.0 + np.exp((dist - c["rotmask"]["radius"]) / 0.7))).astype(np.float32)
+        model = M(t, mask, rotations=tuple(tuple(x) for x in c["rotmask"]["rotations"]), **kw)
     elif c.get("rotmask"):
         # a rotation search together with a soft mask that is not symmetric under the searched rotations (a ball around an off-centre
         # region): an unrotated displaced copy must still come back with the identity rotation and the displacement (half-pixel clause)
@@ -155,6 +170,12 @@ DIRECTED = [
          rotmask={"offset": [2.0, -2.0, 2.0], "radius": 6.0, "rotations": [[60, 30], [0, 0], [0, 0]]}),
     dict(model="pcc", shape=[20, 20, 20], max_shifts=[2.0, 2.0, 2.0], d=[-1.0, 0.0, 1.0], seed=33, cutoff=None, tilt=None, rotvec=None, dkind="rotmask",
          rotmask={"offset": [-2.0, 0.0, 3.0], "radius": 6.0, "rotations": [[0, 0], [90, 90], [0, 0]]}),
+    dict(model="zncc", shape=[22, 24, 23], max_shifts=[3.0, 3.0, 3.0], d=[1.0, -2.0, 1.0], seed=34, cutoff=None, tilt=None, rotvec=None, dkind="rotmask",
+         rotmask={"particle": True, "offset": [0.0, 5.0, 3.8], "radius": 5.0, "rotations": [[0, 0], [0, 0], [90, 90]]}),
+    dict(model="ncc", shape=[24, 22, 23], max_shifts=[3.0, 3.0, 3.0], d=[-1.5, 0.5, 2.0], seed=35, cutoff=None, tilt=None, rotvec=None, dkind="rotmask",
+         rotmask={"particle": True, "offset": [4.0, -3.0, 3.0], "radius": 5.0, "rotations": [[30, 30], [30, 30], [0, 0]]}),
+    dict(model="zncc", shape=[23, 23, 23], max_shifts=[3.0, 3.0, 3.0], d=[0.0, 0.0, 0.0], seed=36, cutoff=None, tilt=None, rotvec=None, dkind="rotmask",
+         rotmask={"particle": True, "offset": [-3.5, 4.0, 0.0], "radius": 5.0, "rotations": [[90, 90], [0, 0], [0, 0]]}),
     # reproducer of the recorded finding C04-fsc-half-integer-lag
     dict(model="fsc", shape=[14, 14, 14], max_shifts=[1.0, 1.0, 1.0], d=[0.35, 0.45, -0.1], seed=2098463371, cutoff=None, tilt=None, rotvec=None, dkind="small"),
 ]
